@@ -258,28 +258,62 @@ func runPPS(nalu []byte, arg string) (r result) {
 	return r
 }
 
-// mapsOf parses the parameter sets listed in a SLICE case ("sps,sps;pps,pps") with the implementation itself.
+// historyOps splits the argument of a slice case into the API calls that build the maps: either the old form
+// "sps,sps;pps,pps" (= S,S,P,P) or "S:<hex>|P:<hex>|DS:<id>|DP:<id>|NS|NP" (see the model driver).
+func historyOps(arg string) []string {
+	if strings.Contains(arg, ";") {
+		parts := strings.Split(arg, ";")
+		var ops []string
+		if len(parts) != 2 {
+			return nil
+		}
+		for _, h := range strings.Split(parts[0], ",") {
+			if h != "" {
+				ops = append(ops, "S:"+h)
+			}
+		}
+		for _, h := range strings.Split(parts[1], ",") {
+			if h != "" {
+				ops = append(ops, "P:"+h)
+			}
+		}
+		return ops
+	}
+	if arg == "" || arg == "-" {
+		return nil
+	}
+	return strings.Split(arg, "|")
+}
+
+// mapsOf replays the history of a SLICE case on the real API: every parameter set is parsed by the implementation
+// itself, a PPS with the spsMap as it is at that moment; entries are replaced / deleted, maps are swapped for fresh
+// ones. The maps returned are those handed to ParseSliceHeader.
 func mapsOf(arg string) (map[uint32]*avc.SPS, map[uint32]*avc.PPS) {
 	spsMap := map[uint32]*avc.SPS{}
 	ppsMap := map[uint32]*avc.PPS{}
-	parts := strings.Split(arg, ";")
-	if len(parts) != 2 {
-		return spsMap, ppsMap
-	}
-	for _, h := range strings.Split(parts[0], ",") {
-		if h == "" {
-			continue
-		}
-		if s, err := avc.ParseSPSNALUnit(hx.UnHex(h), true); err == nil {
-			spsMap[s.ParameterID] = s
-		}
-	}
-	for _, h := range strings.Split(parts[1], ",") {
-		if h == "" {
-			continue
-		}
-		if p, err := avc.ParsePPSNALUnit(hx.UnHex(h), spsMap); err == nil {
-			ppsMap[p.PicParameterSetID] = p
+	for _, op := range historyOps(arg) {
+		k, v, _ := strings.Cut(op, ":")
+		switch k {
+		case "S":
+			if s, err := avc.ParseSPSNALUnit(hx.UnHex(v), true); err == nil {
+				spsMap[s.ParameterID] = s
+			}
+		case "P":
+			if p, err := avc.ParsePPSNALUnit(hx.UnHex(v), spsMap); err == nil {
+				ppsMap[p.PicParameterSetID] = p
+			}
+		case "DS":
+			var id uint32
+			fmt.Sscanf(v, "%d", &id)
+			delete(spsMap, id)
+		case "DP":
+			var id uint32
+			fmt.Sscanf(v, "%d", &id)
+			delete(ppsMap, id)
+		case "NS":
+			spsMap = map[uint32]*avc.SPS{}
+		case "NP":
+			ppsMap = map[uint32]*avc.PPS{}
 		}
 	}
 	return spsMap, ppsMap
